@@ -53,11 +53,14 @@ Definition case_extract (p : Z) (s : text) (expected : option sval) : bool := os
 Definition otext_eqb' (a b : option text) : bool := match a, b with None, None => true | Some x, Some y => text_eqb x y | _, _ => false end.
 Definition case_time_print (syn : tsyntax) (fps : option Q) (t : Q) (expected : option text) : bool :=
   otext_eqb' (to_time_format syn fps t) expected.
-Definition case_has_px (p : Z) (v : sval) (expected : option bool) : bool :=
-  match has_px p v, expected with None, None => true | Some x, Some y => Bool.eqb x y | _, _ => false end.
+Definition case_has_px (p : Z) (v : sval) (expected : bool) : bool := Bool.eqb (has_px p v) expected.
 Definition case_frame_rate (fps : Q) (fr : text) (mult : option text) : bool :=
   let '(a, b) := print_frame_rate fps in text_eqb a fr && otext_eqb' b mult.
 Definition case_g (x : Q) (expected : text) : bool := text_eqb (format_g x) expected.
+Definition case_num (x : Q) (expected : text) : bool := text_eqb (print_num x) expected.     (* imsc/utils.py to_ttml_number *)
+(* float() on the transcribed fragment *)
+Definition case_float (s : text) (expected : option Q) : bool :=
+  match parse_float s, expected with None, None => true | Some a, Some b => Qeq_bool a b | _, _ => false end.
 Definition L := mkLen.
 
 (* ---- S on the code's round trip ------------------------------------------------------------------------------- *)
